@@ -454,6 +454,8 @@ var (
 		`up{job="foo"} == 0 and on(instance) node_up == 1`,
 	}
 	multiExprPool = [][]string{
+		{"sum(foo) # total", "> 0"},
+		{"up == 0 # it is down", "# a whole line of PromQL comment", "and on(job) bar"},
 		{"sum(rate(foo[5m]))", "/", "sum(rate(bar[5m])) > 0.1"},
 		{"up{job=\"a\"}", "== 0"},
 		{"sum by (job) (", "  rate(http_requests_total[5m])", ") > 0"},
@@ -464,7 +466,7 @@ var (
 	labelKeys = []string{"severity", "team", "job", "env", "component"}
 	labelVals = []string{"critical", "warning", "page", "foo bar", "{{ $labels.job }}", "a#b", "x: y", "it's", `say "hi"`, "aaaa", "sev-1", "  padded"}
 	annKeys   = []string{"summary", "description", "runbook", "dashboard", "link"}
-	annVals   = []string{"Instance {{ $labels.instance }} down", "value is {{ $value }}", "https://example.com/wiki#anchor", "foo", "a: b", "{{ $labels.job }} on {{ $labels.instance }}", "it's down", "summary summary", "x"}
+	annVals   = []string{"see issue #12 for {{ $labels.job }}", "ticket #7 # twice", "Instance {{ $labels.instance }} down", "value is {{ $value }}", "https://example.com/wiki#anchor", "foo", "a: b", "{{ $labels.job }} on {{ $labels.instance }}", "it's down", "summary summary", "x"}
 	// values with multi-byte characters (GenOpts.NonASCII): columns are bytes, displayed characters are not
 	nonASCIIVals  = []string{"kraków", "µs latency on {{ $labels.instance }}", "日本 dc", "température élevée: {{ $value }}", "Instancja {{ $labels.instance }} nie działa", "naïve – dash", "ü"}
 	nonASCIIExprs = []string{`up{dc="kraków"} == 0`, `foo{name=~"日本.*"} > 1`, `sum(rate(requests_total{kraj="Polska – południe"}[5m])) by (job) > 10`}
